@@ -1588,3 +1588,155 @@ def own8(units, R):
                      'borrowed memory would be released (or owned memory leaked)' % (X, l['f'], Y, flag)),
                      key='carry:%s:%s' % (l['f'], Y))
     R.floor('OWN8', 'payload pointers copied between nodes', n, 1)
+
+
+# ---- DEL1: cJSON_Delete releases exactly what the node owns ---------------------------------------------------------
+
+def del1(units, R):
+    """cJSON_Delete, one node at a time: for each of the 32 combinations of (reference bit, constant-key bit, child /
+    valuestring / key present) the path the code takes is followed and what it releases is compared with the ownership
+    rules: the child chain and the value string unless the node is a reference, the key unless it is constant, the node
+    itself always and last, and nothing of the node is read after the node was released.  OWN5 says borrowed memory is
+    never freed; this rule adds the other direction (owned memory is always freed) and the order."""
+    u = units['cJSON.c']
+    fn = u.fn('cJSON_Delete')
+    cfg = fn.cfg()
+    if not fn.params:
+        raise AnalysisBroken('DEL1: cJSON_Delete has no parameter')
+    item = fn.params[0]
+    FLAGS = {'cJSON_IsReference': 'R', 'cJSON_StringIsConst': 'C'}
+    FIELDS = ('child', 'valuestring', 'string')
+
+    def field_of(e):
+        """'child' etc. when e is item->field (item = the parameter or a local it was copied to: not supported)"""
+        e = strip_casts(e)
+        if e.get('k') == 'mem' and is_ref(e['b']) and strip_casts(e['b'])['d'] == item['d']:
+            return e['f']
+        return None
+
+    def flag_of(e):
+        e = strip_casts(e)
+        if e.get('k') == 'bin' and e['op'] == '&':
+            for (a, b) in ((e['l'], e['r']), (e['r'], e['l'])):
+                if field_of(a) == 'type':
+                    for m in (strip_casts(b).get('m') or []):
+                        if m in FLAGS:
+                            return FLAGS[m]
+        return None
+
+    def truth(e, env):
+        """True/False/None for an atomic condition under the abstract node env"""
+        e = strip_casts(e)
+        f = flag_of(e)
+        if f:
+            return env[f]
+        if field_of(e) in FIELDS:
+            return env[field_of(e)]
+        if is_ref(e) and e['d'] == item['d']:
+            return True
+        p = cmp_parts(e)
+        if p and p[2] == 0 and p[1] in ('==', '!='):
+            inner = truth(p[0], env)
+            if inner is None:
+                return None
+            return inner if p[1] == '!=' else (not inner)
+        if e.get('k') == 'bin' and e['op'] in ('==', '!='):
+            for (a, b) in ((e['l'], e['r']), (e['r'], e['l'])):
+                if is_null_const(b):
+                    t = truth(a, env)
+                    if t is None:
+                        return None
+                    return t if e['op'] == '!=' else (not t)
+        return None
+    import itertools
+    bad = []
+    n_cases = 0
+    for (Rb, Cb, ch, vs, st) in itertools.product((False, True), repeat=5):
+        env = {'R': Rb, 'C': Cb, 'child': ch, 'valuestring': vs, 'string': st}
+        n_cases += 1
+        events = []        # ('release', what) | ('read', field)
+        nid = cfg.entry.id
+        steps = 0
+        freed_item = False
+        moved_on = False
+        while nid != cfg.exit.id and steps < 500 and not moved_on:
+            steps += 1
+            node = cfg.nodes[nid]
+            for ev in node_effects(node):
+                if ev.kind == 'load':
+                    f = field_of(ev.node)
+                    if f is not None:
+                        events.append(('read-after-free' if freed_item else 'read', f))
+                elif ev.kind == 'store':
+                    f = field_of(ev.lhs)
+                    if f is not None:
+                        if freed_item:
+                            events.append(('write-after-free', f))
+                        if f in FIELDS and ev.node['op'] == '=' and is_null_const(ev.node['r']):
+                            env = dict(env)
+                            env[f] = False
+                        elif f in FIELDS or f == 'type':
+                            raise AnalysisBroken('DEL1: %s: cJSON_Delete modifies %s->%s' % (fn.where(ev.node), item['n'], f))
+                    elif is_ref(ev.lhs) and strip_casts(ev.lhs)['d'] == item['d']:
+                        moved_on = True          # item = next: this node is done
+                elif ev.kind == 'call':
+                    c = ev.node
+                    cn = callee_name(c)
+                    arg = strip_casts(c['args'][0]) if c.get('args') else None
+                    rel = (cn in RELEASES) or (cn is None and indirect_field(c) == 'deallocate')
+                    if rel and arg is not None:
+                        f = field_of(arg)
+                        if f in FIELDS:
+                            events.append(('release', f))
+                        elif is_ref(arg) and arg['d'] == item['d']:
+                            events.append(('release', 'node'))
+                            freed_item = True
+                        else:
+                            events.append(('release', expr_str(arg)[:30]))
+            if moved_on:
+                break
+            nxt = None
+            succ = cfg.succ[nid]
+            if node.kind == 'branch':
+                t = truth(node.expr, env)
+                if t is None:
+                    raise AnalysisBroken('DEL1: %s: condition %s of cJSON_Delete is not about the node being deleted'
+                                         % (fn.where(node.expr), expr_str(node.expr)[:50]))
+                for (y, l) in succ:
+                    if l is not None and l[0] == ('T' if t else 'F'):
+                        nxt = y
+            elif len(succ) == 1:
+                nxt = succ[0][0]
+            elif not succ:
+                break
+            else:
+                raise AnalysisBroken('DEL1: unexpected control flow in cJSON_Delete at line %d' % node.line)
+            if nxt is None:
+                break
+            nid = nxt
+        rel = [w for (k, w) in events if k == 'release']
+        want = set()
+        if not Rb and ch:
+            want.add('child')
+        if not Rb and vs:
+            want.add('valuestring')
+        if not Cb and st:
+            want.add('string')
+        want.add('node')
+        problems = []
+        if set(rel) != want or len(rel) != len(set(rel)):
+            problems.append('releases %s, should release %s' % (sorted(rel), sorted(want)))
+        if rel and rel[-1] != 'node':
+            problems.append('the node is not released last')
+        uaf = [w for (k, w) in events if k in ('read-after-free', 'write-after-free')]
+        if uaf:
+            problems.append('%s->%s used after the node was released' % (item['n'], uaf[0]))
+        if problems:
+            bad.append((env, problems))
+    desc = lambda env: '%s%s node with%s child, with%s value string, with%s key' % (
+        'reference ' if env['R'] else '', 'constant-key' if env['C'] else 'plain', '' if env['child'] else 'out',
+        '' if env['valuestring'] else 'out', '' if env['string'] else 'out')
+    R.ob('DEL1', fn, None, 'cJSON_Delete releases exactly what each kind of node owns, the node itself last', not bad,
+         'all %d combinations of the two ownership bits and the three payload pointers' % n_cases if not bad else
+         '%s: %s (%d of %d combinations wrong)' % (desc(bad[0][0]), '; '.join(bad[0][1]), len(bad), n_cases), key='delete-table')
+    R.floor('DEL1', 'ownership combinations followed through cJSON_Delete', n_cases, 32)
